@@ -280,6 +280,16 @@ func runHistory(k *vf.Case) {
 		}
 		readers = append(readers, rs)
 	}
+	if r.Chance(1, 4) {
+		// a further reader that cannot aggregate sums at all (its selector asks for last-value): instrument
+		// creation reports an error for it, the instrument must still feed every other reader
+		broken := sdkmetric.NewManualReader(sdkmetric.WithAggregationSelector(func(k sdkmetric.InstrumentKind) sdkmetric.Aggregation {
+			return sdkmetric.AggregationLastValue{}
+		}))
+		at := r.Intn(len(opts) + 1)
+		opts = append(opts[:at], append([]sdkmetric.Option{sdkmetric.WithReader(broken)}, opts[at:]...)...)
+		k.C.Count("histories_with_an_incompatible_reader", 1)
+	}
 	mp := sdkmetric.NewMeterProvider(opts...)
 	var ci [3]metric.Int64Counter
 	var cf [3]metric.Float64Counter
